@@ -11,5 +11,7 @@ VARIABLE c
 Init == c \in (IF NSample = 0 THEN Bs \X Qs ELSE RandomSubset(NSample, Bs \X Qs))
 Next == UNCHANGED c
 Emit == PrintT(<<"CASE", ToJson([B |-> c[1], Q |-> c[2],
-          byk |-> [k \in 0..(N \div 2) |-> {<<p[1], p[2], RingDist(c[1][p[1]], c[2][p[2]])>> : p \in Within(c[1], c[2], k)}]])>>)
+          byk |-> [k \in 0..(N \div 2) |-> {<<p[1], p[2], RingDist(c[1][p[1]], c[2][p[2]])>> : p \in Within(c[1], c[2], k)}],
+          \* the index queried with its own build points
+          self |-> [k \in 0..(N \div 2) |-> {<<p[1], p[2], RingDist(c[1][p[1]], c[1][p[2]])>> : p \in Within(c[1], c[1], k)}]])>>)
 =============================================================================
